@@ -121,6 +121,9 @@ def _cases(shard):
                                                                       'iteritems'] if is_map else [])),
                   st.integers(1, 12), st.booleans())]
         if kind in F.TREE_KINDS:
+            # delete every key of a run of consecutive leaves (with small nodes this empties whole interior nodes,
+            # which their parents then drop), sweep, look again
+            rw += [op('delrun', st.integers(0, 8), st.integers(2, 6))] * 2
             rw += [op('leaf', st.integers(0, 6), st.sampled_from(['keys', 'minKey_bad', 'maxKey_bad', 'len', 'has_key', 'maxKey']))]
         ctl = [op('commit'), op('commit'), op('minimize'), op('minimize'),
                op('deact', st.lists(st.integers(0, 30), max_size=5)),
@@ -324,6 +327,28 @@ def _special(lv, op, ctx, i):
             want = ('ok', c[-1]) if c else ('exc', ValueError)
         call = (lambda: getattr(t, name)()) if b is None else (lambda: getattr(t, name)(kb))
         return call, want, 'eq'
+    if name == 'delrun':
+        if not lv.is_tree or not sk:
+            return (lambda: None), ('ok', None), 'eq'
+        ghosts = [o for o in lv.nodes() if o._p_state == -1]
+        lvs = [lf.keys for lf in walker.walk(lv.t, lv.is_map, check=False).leaves if lf.keys]
+        for o in ghosts:
+            if o._p_state == 0:
+                o._p_deactivate()
+        i = op[1] % len(lvs)
+        doomed = [k for lf in lvs[i:i + op[2]] for k in lf]
+
+        def call():
+            for k in doomed:
+                if lv.is_map:
+                    del t[k]
+                else:
+                    t.remove(k)
+                m.pop(k, None)
+            lv.conn.minimize()
+            return [k for k in (t.keys())]
+        want = [k for k in sk if not any(k is d or k == d for d in doomed)]
+        return call, ('ok', want), 'eq'
     if name == 'isdisjoint_self':
         return (lambda: t.isdisjoint(lv.t)), ('ok', not m), 'truth'
     if name == 'alg':
